@@ -20,13 +20,13 @@ const (
 
 // Rec is one line of a worker's result log.
 type Rec struct {
-	T      string           `json:"t"`           // "E" end of case, "C" counters snapshot, "S" sample, "F" finished
-	I      int              `json:"i,omitempty"` // case index inside the batch
-	V      string           `json:"v,omitempty"`
-	Sig    string           `json:"s,omitempty"`  // held: shape signature; viol: violation signature (matched against known findings)
-	NT     bool             `json:"n,omitempty"`  // non-trivial by the property's rule
-	Detail json.RawMessage  `json:"d,omitempty"`  // violation / inconclusive detail, or sample body
-	Cnt    map[string]int64 `json:"c,omitempty"`  // cumulative counters of this worker lifetime
+	T      string              `json:"t"`           // "E" end of case, "C" counters snapshot, "S" sample, "F" finished
+	I      int                 `json:"i,omitempty"` // case index inside the batch
+	V      string              `json:"v,omitempty"`
+	Sig    string              `json:"s,omitempty"` // held: shape signature; viol: violation signature (matched against known findings)
+	NT     bool                `json:"n,omitempty"` // non-trivial by the property's rule
+	Detail json.RawMessage     `json:"d,omitempty"` // violation / inconclusive detail, or sample body
+	Cnt    map[string]int64    `json:"c,omitempty"` // cumulative counters of this worker lifetime
 	Sets   map[string][]string `json:"u,omitempty"` // cumulative distinct-value sets (bounded)
 }
 
@@ -36,21 +36,21 @@ type W struct {
 	Tier  string
 	Seed  uint64
 	Batch int
-	From  int // skip cases with index < From (resume after a worker death)
-	Only  int // >= 0: run only this case (replay)
+	From  int    // skip cases with index < From (resume after a worker death)
+	Only  int    // >= 0: run only this case (replay)
 	Dir   string // scratch directory of this worker (removed by the orchestrator)
 	Race  bool   // this binary was built with -race
 
-	mu       sync.Mutex
-	out      *os.File
-	wal      string
-	idx      int
-	open     bool
-	cnt      map[string]int64
-	sets     map[string]map[string]struct{}
-	samples  int
+	mu         sync.Mutex
+	out        *os.File
+	wal        string
+	idx        int
+	open       bool
+	cnt        map[string]int64
+	sets       map[string]map[string]struct{}
+	samples    int
 	MaxSamples int
-	sinceSnap int
+	sinceSnap  int
 }
 
 func NewW(prop, tier string, seed uint64, batch, from, only int, dir, outPath string) (*W, error) {
